@@ -165,26 +165,7 @@ theorem Reach.source_declared {s : Schema N} {a b : String} (h : Reach s a b) : 
   | trans e _ => obtain ⟨g, _, hg, _⟩ := e; exact ⟨g, hg⟩
 
 /-- Along any `use` path that starts at a successfully checked group, the check of the end point also
-    succeeded, on a stack containing the start. -/
-theorem checkCycle_along {s : Schema N} {a c : String} (h : Reach s a c) :
-    ∀ (st : List String) (l : Line N), checkCycle s a st l = .ok () →
-      ∃ (st' : List String) (l' : Line N), a ∈ st' ∧ checkCycle s c st' l' = .ok () := by
-  induction h with
-  | @step a b e =>
-    intro st l hok
-    obtain ⟨g, u, hg, hu, hub⟩ := e
-    have := ((checkCycle_ok s a st l).mp hok).2 g hg u hu
-    exact ⟨st ++ [a], u.line, by simp, hub ▸ this⟩
-  | @trans a b c e _ ih =>
-    intro st l hok
-    obtain ⟨g, u, hg, hu, hub⟩ := e
-    have h1 := ((checkCycle_ok s a st l).mp hok).2 g hg u hu
-    rw [hub] at h1
-    obtain ⟨st', l', hmem, hok'⟩ := ih (st ++ [a]) u.line h1
-    -- the stack only grows
-    exact ⟨st', l', hmem, hok'⟩
-
-/-- The stack handed down only grows: strengthen `checkCycle_along` to keep every earlier entry. -/
+    succeeded, on a stack that contains the start and everything below it. -/
 theorem checkCycle_along' {s : Schema N} {a c : String} (h : Reach s a c) :
     ∀ (st : List String) (l : Line N), checkCycle s a st l = .ok () →
       ∃ (st' : List String) (l' : Line N), (∀ x ∈ st ++ [a], x ∈ st') ∧ checkCycle s c st' l' = .ok () := by
@@ -200,7 +181,7 @@ theorem checkCycle_along' {s : Schema N} {a c : String} (h : Reach s a c) :
     have h1 := ((checkCycle_ok s a st l).mp hok).2 g hg u hu
     rw [hub] at h1
     obtain ⟨st', l', hmem, hok'⟩ := ih (st ++ [a]) u.line h1
-    exact ⟨st', l', fun x hx => hmem x (by simp at hx ⊢; exact Or.inl hx), hok'⟩
+    exact ⟨st', l', fun x hx => hmem x (List.mem_append_left _ hx), hok'⟩
 
 theorem checkCycle_sound {s : Schema N}
     (h : ∀ g ∈ s.groups, checkCycle s g.name [] g.line = .ok ()) : NoUseCycle s := by
@@ -231,5 +212,252 @@ termination_by unvisited s st
 theorem checkCycle_all_iff (s : Schema N) :
     (∀ g ∈ s.groups, checkCycle s g.name [] g.line = .ok ()) ↔ NoUseCycle s :=
   ⟨checkCycle_sound, fun hno g _ => checkCycle_complete hno g.name [] g.line (by simp)⟩
+
+/-! ## `_validate_attr` -/
+
+theorem mem_namespaces {s : Schema N} {t : Option String} : t ∈ namespaces s ↔ IsNamespace s t := by
+  unfold namespaces IsNamespace
+  simp only [List.mem_filterMap, List.mem_flatMap]
+  constructor
+  · rintro ⟨a, ⟨ms, hms, ha⟩, h⟩
+    split at h
+    · rename_i hid
+      exact ⟨ms, hms, a, mem_memberAttrs.mp ha, hid, by simpa using h⟩
+    · cases h
+  · rintro ⟨ms, hms, b, hb, hid, ht⟩
+    exact ⟨b, ⟨ms, hms, mem_memberAttrs.mpr hb⟩, by simp [hid, ht]⟩
+
+theorem targetIn_iff {t : Option String} {names : List String} :
+    targetIn t names = true ↔ ∃ n, t = some n ∧ n ∈ names := by
+  cases t <;> simp [targetIn]
+
+theorem Hi.isNum_iff {h : Hi} : h.isNum = true ↔ ∃ n, h = .num n := by
+  cases h <;> simp [Hi.isNum]
+
+theorem Hi.ltNat_false {h : Hi} {n : Nat} : h.ltNat n = false ↔ ∀ k, h = .num k → n ≤ k := by
+  cases h <;> simp [Hi.ltNat]
+
+theorem Arity.isScalar_iff {a : Arity} : a.isScalar = true ↔ a = ⟨1, .num 1⟩ := by
+  cases a with
+  | mk lo hi => simp [Arity.isScalar]
+
+theorem Arity.isScalar_false {a : Arity} : a.isScalar = false ↔ a ≠ ⟨1, .num 1⟩ := by
+  have := @Arity.isScalar_iff a
+  cases h : a.isScalar <;> simp_all
+
+theorem badMinMax_false {numeric : Bool} {o : Option FacetVal} :
+    badMinMax numeric o = false ↔ ∀ v, o = some v → numeric = true ∧ v.isNumeric = true := by
+  cases o <;> simp [badMinMax]
+
+theorem minGtMax_false {a b : Option FacetVal} :
+    minGtMax a b = false ↔ ∀ lo hi, a = some lo → b = some hi → lo.key ≤ hi.key := by
+  cases a <;> cases b <;> simp [minGtMax, Int.not_lt]
+
+theorem validateDefault_ok (s : Schema N) (a : Attr N) (d : Default) :
+    validateDefault s a d = .ok () ↔ DefaultWF s a d := by
+  unfold validateDefault DefaultWF
+  cases hty : a.type <;> cases d <;>
+    simp [chk_ok, andThen_ok, Hi.ltNat_false, Arity.isScalar_false, Nat.not_lt] <;>
+    first
+      | exact Decidable.or_iff_not_imp_left.symm
+      | (constructor <;> intro h <;> (first | exact h.symm | exact h))
+
+theorem validateAttr_ok (s : Schema N) (a : Attr N) :
+    validateAttr s (namespaces s) a = .ok () ↔ AttrWF s a := by
+  unfold validateAttr
+  simp only [andThen_ok, chk_ok]
+  constructor
+  · rintro ⟨h1, h2, h3, h4, h5, h6, h7, h8, h9, h10, h11⟩
+    refine ⟨?_, ?_, ?_, ?_, ?_, ?_, ?_, ?_, ?_, ?_, ?_⟩
+    · intro ht
+      have : targetIn a.target (enumNames s) = true := by
+        rcases ht with ht | ht <;> simpa [ht] using h1
+      exact targetIn_iff.mp this
+    · intro ht
+      have : a.target ∈ namespaces s := by simpa [ht] using h2
+      exact mem_namespaces.mp this
+    · intro ht
+      have : a.arity.isScalar = true := by rcases ht with ht | ht <;> simpa [ht] using h3
+      exact Arity.isScalar_iff.mp this
+    · intro ht
+      have : a.arity.hi.isNum = true := by simpa [ht] using h4
+      exact Hi.isNum_iff.mp this
+    · rintro ⟨v, hv⟩
+      have := h5
+      simp only [hv, Option.isSome_some, true_and, decide_eq_false_iff_not, Decidable.not_not] at this
+      exact this
+    · exact badMinMax_false.mp h6
+    · exact badMinMax_false.mp h7
+    · exact minGtMax_false.mp h8
+    · intro ht
+      simpa [ht] using h9
+    · intro ht
+      have := h10
+      simp only [ht, true_and, decide_eq_false_iff_not] at this
+      cases hd : a.default with
+      | none => rfl
+      | some d => simp [hd] at this
+    · intro d hd
+      rw [hd] at h11
+      exact (validateDefault_ok s a d).mp h11
+  · intro w
+    refine ⟨?_, ?_, ?_, ?_, ?_, ?_, ?_, ?_, ?_, ?_, ?_⟩
+    · by_cases ht : a.type = .enum ∨ a.type = .flags
+      · have := targetIn_iff.mpr (w.enumTarget ht)
+        simp [this]
+      · simp [ht]
+    · by_cases ht : a.type = .ref
+      · have := mem_namespaces.mpr (w.refTarget ht)
+        simp [this]
+      · simp [ht]
+    · by_cases ht : a.type = .file ∨ a.type = .bool
+      · have := Arity.isScalar_iff.mpr (w.fileBoolScalar ht)
+        simp [this]
+      · simp [ht]
+    · by_cases ht : a.type = .chars
+      · have := Hi.isNum_iff.mpr (w.charsBounded ht)
+        simp [this]
+      · simp [ht]
+    · cases hp : a.facets.get "pattern" with
+      | none => simp
+      | some v =>
+        have := w.patternText ⟨v, hp⟩
+        simp [this]
+    · exact badMinMax_false.mpr w.minNumeric
+    · exact badMinMax_false.mpr w.maxNumeric
+    · exact minGtMax_false.mpr w.minLeMax
+    · by_cases ht : truthy (a.facets.get "positive") = true
+      · simp [w.positiveNumeric ht]
+      · simp [ht]
+    · by_cases ht : truthy (a.facets.get "required") = true
+      · simp [w.requiredNoDefault ht]
+      · simp [ht]
+    · cases hd : a.default with
+      | none => rfl
+      | some d => exact (validateDefault_ok s a d).mpr (w.default d hd)
+
+/-! ## groups, uses, elements -/
+
+theorem checkConNames_ok (names : List String) (con : Constraint N) :
+    checkConNames names con = .ok () ↔ ∀ b ∈ con.bundles, ∀ n ∈ b, n ∈ names := by
+  unfold checkConNames
+  simp only [chk_ok, List.any_eq_false, List.any_eq_true, decide_eq_true_eq, not_exists, not_and,
+    Decidable.not_not]
+
+theorem mem_attrNames {ms : List (Member N)} {n : String} :
+    n ∈ (memberAttrs ms).map (·.name) ↔ ∃ a : Attr N, Member.attr a ∈ ms ∧ a.name = n := by
+  simp only [List.mem_map, mem_memberAttrs]
+
+theorem validateGroup_ok (g : Group N) :
+    validateGroup g = .ok () ↔
+      (∀ c : Constraint N, Member.con c ∈ g.members → ∀ b ∈ c.bundles, ∀ n ∈ b,
+        ∃ a : Attr N, Member.attr a ∈ g.members ∧ a.name = n) ∧
+      (g.variant = true →
+        (∀ u : Use N, Member.use u ∉ g.members) ∧
+        (∀ a : Attr N, Member.attr a ∈ g.members → truthy (a.facets.get "required") = false)) := by
+  unfold validateGroup
+  simp only [andThen_ok, forAll_ok, checkConNames_ok, mem_memberCons, mem_attrNames]
+  apply and_congr Iff.rfl
+  cases hv : g.variant with
+  | false => simp
+  | true =>
+    simp only [↓reduceIte, forAll_ok, true_imp_iff]
+    constructor
+    · intro h
+      refine ⟨fun u hu => ?_, fun a ha => ?_⟩
+      · have := h _ hu; cases this
+      · have := h _ ha; simpa using this
+    · rintro ⟨h1, h2⟩ m hm
+      cases m with
+      | use u => exact absurd hm (h1 u)
+      | attr a => simpa using h2 a hm
+      | child _ => rfl
+      | const _ => rfl
+      | con _ => rfl
+
+theorem checkUses_ok (s : Schema N) (ms : List (Member N)) :
+    checkUses s ms = .ok () ↔ ∀ u : Use N, Member.use u ∈ ms → u.group ∈ groupNames s := by
+  unfold checkUses
+  simp only [forAll_ok, chk_ok, mem_memberUses, decide_eq_false_iff_not, Decidable.not_not]
+
+theorem isBadNameFacet_false {o : Option FacetVal} :
+    isBadNameFacet o = false ↔ ∀ v, o = some v → ∃ n, v = .str n := by
+  cases o with
+  | none => simp [isBadNameFacet]
+  | some v => cases v <;> simp [isBadNameFacet]
+
+theorem danglingAlias_false {s : Schema N} {o : Option FacetVal} :
+    danglingAlias s o = false ↔ ∀ n, o = some (.str n) → n ∈ elementNames s := by
+  cases o with
+  | none => simp [danglingAlias]
+  | some v => cases v <;> simp [danglingAlias]
+
+theorem checkElementCon_ok (names : List String) (con : Constraint N) :
+    checkElementCon names con = .ok () ↔
+      (∀ b ∈ con.bundles, ∀ n ∈ b, n ∈ names) ∧ (con.kind = .requires → ∃ x y, con.bundles = [[x], [y]]) := by
+  unfold checkElementCon
+  simp only [andThen_ok, checkConNames_ok, chk_ok]
+  apply and_congr Iff.rfl
+  by_cases hk : con.kind = .requires
+  · simp only [hk, true_and, true_imp_iff, decide_eq_false_iff_not]
+    constructor
+    · intro h
+      match hb : con.bundles with
+      | [[x], [y]] => exact ⟨x, y, rfl⟩
+      | [] => simp [hb] at h
+      | [_] => simp [hb] at h
+      | _ :: _ :: _ :: _ => simp [hb] at h
+      | [[], _] => simp [hb] at h
+      | [_ :: _ :: _, _] => simp [hb] at h
+      | [[_], []] => simp [hb] at h
+      | [[_], _ :: _ :: _] => simp [hb] at h
+    · rintro ⟨x, y, hxy⟩
+      simp [hxy]
+  · simp [hk]
+
+theorem validateElement_ok (s : Schema N) (e : Element N) :
+    validateElement s e = .ok () ↔
+      ((∀ v, e.facets.get "xml" = some v → ∃ n, v = .str n) ∧
+       (∀ v, e.facets.get "alias" = some v → ∃ n, v = .str n ∧ n ∈ elementNames s)) ∧
+      ((∀ c : Child N, Member.child c ∈ e.members → c.name ∈ elementNames s) ∧
+       ((memberChildren e.members).map (·.name)).Nodup) ∧
+      ((expandedAttrs s e.members).map (·.name)).Nodup ∧
+      (∀ c : Constraint N, Member.con c ∈ e.members →
+        (∀ b ∈ c.bundles, ∀ n ∈ b, ∃ a ∈ expandedAttrs s e.members, a.name = n) ∧
+        (c.kind = .requires → ∃ x y, c.bundles = [[x], [y]])) := by
+  unfold validateElement
+  simp only [andThen_ok, chk_ok, isBadNameFacet_false, danglingAlias_false, checkChildren_ok, checkDupAttrs_ok,
+    forAll_ok, checkElementCon_ok, mem_memberCons, mem_memberChildren, List.map_nil, List.not_mem_nil,
+    not_false_eq_true, and_true, implies_true, true_and, List.mem_map]
+  constructor
+  · rintro ⟨h1, h2, h3, h4, h5, h6⟩
+    refine ⟨⟨h1, fun v hv => ?_⟩, h4, h5, h6⟩
+    obtain ⟨n, hn⟩ := h2 v hv
+    exact ⟨n, hn, h3 n (hn ▸ hv)⟩
+  · rintro ⟨⟨h1, h2⟩, h4, h5, h6⟩
+    refine ⟨h1, fun v hv => ?_, fun n hn => ?_, h4, h5, h6⟩
+    · obtain ⟨n, hn, _⟩ := h2 v hv; exact ⟨n, hn⟩
+    · obtain ⟨m, hm, hmem⟩ := h2 _ hn
+      cases hm; exact hmem
+
+/-! ## `_validate` -/
+
+theorem mem_containers {s : Schema N} {ms : List (Member N)} :
+    ms ∈ containers s ↔ (∃ g ∈ s.groups, g.members = ms) ∨ (∃ e ∈ s.elements, e.members = ms) := by
+  simp [containers]
+
+/-- The validator accepts exactly the well-formed schemas. -/
+theorem validate_ok_iff (s : Schema N) : validate s = .ok () ↔ WF s := by
+  unfold validate
+  simp only [andThen_ok, forAll_ok, checkCycle_all_iff, validateGroup_ok, checkUses_ok, validateElement_ok,
+    validateAttr_ok, mem_memberAttrs]
+  constructor
+  · rintro ⟨h1, h2, h3, h4, h5⟩
+    exact ⟨h1, fun g hg => (h2 g hg).1, fun g hg => (h2 g hg).2, h3, fun e he => (h4 e he).1,
+      fun e he => (h4 e he).2.1, fun e he => (h4 e he).2.2.1, fun e he => (h4 e he).2.2.2, h5⟩
+  · intro w
+    exact ⟨w.noUseCycle, fun g hg => ⟨w.groupConstraints g hg, w.variantGroups g hg⟩, w.noDanglingUse,
+      fun e he => ⟨w.elementFacets e he, w.children e he, w.expandedNodup e he, w.elementConstraints e he⟩,
+      w.attrs⟩
 
 end MjProof.Schema
